@@ -137,7 +137,7 @@ BINOPS = {"ADD": OPS.op_add, "SUB": OPS.op_sub, "MUL": OPS.op_mul, "DIV": OPS.op
           "EQ": OPS.op_eq, "NE": OPS.op_ne, "SEQ": OPS.op_seq, "SNE": OPS.op_sne}
 UNOPS = {"NEG": OPS.op_neg, "POS": OPS.op_pos, "NOT": OPS.op_not, "BNOT": OPS.op_bnot, "TYPEOF": OPS.op_typeof,
          "INC": OPS.op_inc, "DEC": OPS.op_dec}
-QUICK_OPS = {"SEQ", "SNE", "POS", "NOT", "TYPEOF", "BNOT"}      # the rest: symbolic run in the thorough tier only
+QUICK_OPS = {"SEQ", "SNE", "POS", "NOT", "TYPEOF"}      # the rest: symbolic run in the thorough tier only
 for _n, _spec in BINOPS.items():
     register(binop, id=f"C06.op.{_n}", prop="C06", target=opcode(_n), native=_opnative, summaries=OSUMM,
              bind={"SPEC": _spec, "OP": OpCode[_n]}, quick=_n in QUICK_OPS)
